@@ -807,6 +807,14 @@ def core_pc_cases():
                     'genhdr': True, 'kind': kind,
                     'deps': {'depa': {'version': '1.0', 'public': [],
                                       'private': None}}})
+    # one dependency constrained from both lists (the two bounds merge) and
+    # named again by the second package
+    for auto in (False, True):
+        out.append(dict(out[0], auto_fill=auto, deps={
+            'depa': {'version': '2.1', 'public': [('>=', '1.0')],
+                     'private': [('>=', '1.2')]},
+            'depb': {'version': '3.0', 'public': [('<', '9.0')],
+                     'private': [('<=', '3.1')]}}))
     return out
 
 
